@@ -319,6 +319,12 @@ ldb_istate_destroy(ldb_istate_t *state) {
 
 static const int non_table_cache_files = 10;
 
+#ifdef LCDB_VERIF
+/* Verification hooks (defined by the harness that sets -DLCDB_VERIF). */
+extern int lcdb_verif_raw_options;
+extern void lcdb_verif_point(const void *obj, int kind);
+#endif
+
 /* Fix user-supplied options to be reasonable. */
 #define clip_to_range(val, min, max) do { \
   if ((val) > (max)) (val) = (max);       \
@@ -340,6 +346,15 @@ ldb_sanitize_options(const char *dbname,
   clip_to_range(result.write_buffer_size, 64 << 10, 1 << 30);
   clip_to_range(result.max_file_size, 1 << 20, 1 << 30);
   clip_to_range(result.block_size, 1 << 10, 4 << 20);
+
+#ifdef LCDB_VERIF
+  /* Verification hook H1: let a harness see option values below the clips. */
+  if (lcdb_verif_raw_options) {
+    result.write_buffer_size = src->write_buffer_size;
+    result.max_file_size = src->max_file_size;
+    result.block_size = src->block_size;
+  }
+#endif
 
   if (result.info_log == NULL) {
     char info[LDB_PATH_MAX];
